@@ -1,91 +1,96 @@
 /-
-Model of /repo/lib/internal/racdict/racdict.go (the RAC "common dictionary format": `Saver.WrapResource`,
-`Saver.Compress`, `Loader.Load`) and of the `refine` steps of lib/raczlib/raczlib.go and lib/raczstd/raczstd.go
-(C13: the "shared resources" dimension with the real codecs).  Core Lean only.
+C15 — model of `lib/internal/racdict.Loader.Load` (the shared-dictionary loader behind
+`raczlib.CodecReader.MakeDecompressor`), including its one-entry MRU cache and the re-use of
+the cached buffer, as repaired by fixes/C15-dict-cache-ttag.patch.  Core Lean only.
 
-The codec's own `compress(p, q, dict)` is a parameter: what is modelled is *which dictionary bytes* the
-compressor is given, which bytes are stored in the RAC file, and which bytes the reader's `Loader` hands to the
-decompressor.  `Saver.stash` (the copy that protects the best candidate from being clobbered by the next
-`compress` call) is value semantics here; the harness drives the real `Saver.Compress` with a `compress`
-function that reuses one buffer, so a missing copy shows as a difference.
+* The RAC file is read through `readerat.ReadSeeker{ReaderAt, Size: CompressedSize}` as the
+  ChunkReader sets it up: `io.ReadFull` of `n` bytes at `off` succeeds iff `off + n` is within
+  both the real bytes and the claimed size; otherwise it is `io.EOF` (nothing could be read)
+  or `io.ErrUnexpectedEOF` (`readFull`).
+* Go `int64` range bounds are `Nat` here (Props/C15: every chunk bound is `< 2^49`), except
+  that `Range.Size()` may be negative for `hi < lo`, which the `< 8` test rejects.
+* `cap` is the capacity of `cachedBytes`: whether the buffer is re-used decides whether a
+  failing load invalidates the cache.  Props/C15Dict proves that no result depends on it.
 -/
-import WuffsVerif.Model.Rac.ChunkWriter
+import WuffsVerif.Model.Rac.ChunkReader
 
 namespace WuffsVerif.Rac.Dict
+open WuffsVerif.Rac
 
-/-- `racdict.MaxInclLength` -/
-def maxInclLength : Nat := 2 ^ 30 - 1
-
-/-- `lastN n b`: `b[len(b)-n:]` if `len(b) > n`, else `b` -/
-def lastN (n : Nat) (b : Bytes) : Bytes := if b.length > n then b.drop (b.length - n) else b
-
-/-- `raczlib.refine`: the last 32 KiB -/
-def refineZlib (b : Bytes) : Bytes := lastN 32768 b
-/-- `raczstd.refine`: the last `MaxInclLength` bytes -/
-def refineZstd (b : Bytes) : Bytes := lastN maxInclLength b
+abbrev CFile := ChunkReader.File
+abbrev CChunk := ChunkReader.Chunk
 
 inductive DErr where
-  | dictionaryIsTooLong
-  | invalidDictionary
-  /-- an error of the codec's own `compress` -/
-  | codec
-deriving DecidableEq, Repr, Inhabited
+  | invalid   -- errInvalidDictionary
+  | eof       -- io.EOF
+  | ueof      -- io.ErrUnexpectedEOF
+  deriving DecidableEq, Repr
 
-/-- 4 bytes little-endian (`wrapped[0..3] = uint8(len >> 0) …`) -/
-def putU32LE (v : Nat) : Bytes :=
-  [UInt8.ofNat v, UInt8.ofNat (v >>> 8), UInt8.ofNat (v >>> 16), UInt8.ofNat (v >>> 24)]
+deriving instance DecidableEq for Except
+
+def DErr.word : DErr → String
+  | .invalid => "invalid" | .eof => "eof" | .ueof => "ueof"
+
+def fileBytes (f : CFile) (lo n : Nat) : List UInt8 :=
+  (List.range n).map (fun i => UInt8.ofNat (f.at (lo + i)))
+
+/-- `rs.Seek(off); io.ReadFull(rs, buf[:n])` through `readerat.ReadSeeker{Size: limit}` -/
+def readFull (f : CFile) (limit off n : Nat) : Except DErr (List UInt8) :=
+  let avail := min f.size limit - off
+  if n = 0 then .ok []
+  else if n ≤ avail then .ok (fileBytes f off n)
+  else if avail = 0 then .error .eof
+  else .error .ueof
 
 /-- `u32LE` -/
-def u32LE (b : Bytes) : Nat :=
-  (b.getD 0 0).toNat ||| ((b.getD 1 0).toNat <<< 8) ||| ((b.getD 2 0).toNat <<< 16) ||| ((b.getD 3 0).toNat <<< 24)
+def u32LE (b : List UInt8) : Nat :=
+  (b.getD 0 0).toNat + 256 * ((b.getD 1 0).toNat + 256 * ((b.getD 2 0).toNat + 256 * (b.getD 3 0).toNat))
 
-/-- `Saver.WrapResource(raw, refineResourceData)` -/
-def wrapResource (refine : Bytes → Bytes) (raw : Bytes) : Except DErr Bytes :=
-  let refined := refine raw
-  if refined.length > maxInclLength then .error .dictionaryIsTooLong else
-  .ok (putU32LE refined.length ++ refined ++ putU32LE (crc32 refined).toNat)
+/-- `crc32.ChecksumIEEE` of a byte list -/
+def crc32 (b : List UInt8) : Nat :=
+  (b.foldl (fun c x => ChunkReader.crcStep c x.toNat) 0xFFFFFFFF) ^^^ 0xFFFFFFFF
 
-/-- `Loader.Load(rs, chunk)` without the MRU cache, on the bytes of `chunk.CSecondary` (a range inside the
-file, so no read error): `terNonEmpty` is `!chunk.CTertiary.Empty()`, `ttag` is `chunk.TTag`.
-`.ok []` is Go's `nil, nil`: no dictionary. -/
-def load (sec : Bytes) (terNonEmpty : Bool) (ttag : Nat) : Except DErr Bytes :=
-  if terNonEmpty then .error .invalidDictionary else
-  if sec.length == 0 then .ok [] else
-  if sec.length < 8 || ttag != 0xFF then .error .invalidDictionary else
-  let dictSize := u32LE (sec.take 4)
-  if dictSize >>> 30 != 0 then .error .invalidDictionary else
-  if dictSize + 8 > sec.length then .error .invalidDictionary else
-  let buffer := (sec.drop 4).take (dictSize + 4)
-  let dict := buffer.take dictSize
-  let checksum := buffer.drop dictSize
-  if u32LE checksum != (crc32 dict).toNat then .error .invalidDictionary else
-  .ok dict
+/-- `racdict.Loader`: `cachedRange`, `cachedBytes` (contents and capacity) -/
+structure Loader where
+  lo : Nat := 0
+  hi : Nat := 0
+  bytes : List UInt8 := []
+  cap : Nat := 0
+  deriving Repr
 
-/-- the `for i, resourceData := range resourcesData` loop of `Saver.Compress`: `i` is the index of the head
-of the list, `best` is `compressed`, `sec` is `secondaryResource` -/
-def compressLoop (compress : Bytes → Bytes → Bytes → Except DErr Bytes) (refine : Bytes → Bytes)
-    (p q : Bytes) (threshold : Nat) : List Bytes → Nat → Bytes → Int → Except DErr (Bytes × Int)
-  | [], _, best, sec => .ok (best, sec)
-  | r :: rs, i, best, sec =>
-    let refined := refine r
-    if refined.length > maxInclLength then .error .dictionaryIsTooLong else
-    match compress p q refined with
-    | .error e => .error e
-    | .ok candidate =>
-      if candidate.length ≥ threshold || candidate.length ≥ best.length then
-        compressLoop compress refine p q threshold rs (i + 1) best sec
+/-- `Loader.Load(rs, chunk)`: new loader state and `(dictionary, err)`; `ok none` is the
+`nil, nil` answer for a chunk without a secondary range -/
+def Loader.load (f : CFile) (limit : Nat) (l : Loader) (c : CChunk) :
+    Loader × Except DErr (Option (List UInt8)) :=
+  if c.ctLo ≠ c.ctHi then (l, .error .invalid)
+  else if c.csLo = c.csHi then (l, .ok none)
+  -- repaired (C15-dict-cache-ttag): the size / TTag check comes before the cache lookup
+  else if c.csHi < c.csLo + 8 ∨ c.tTag ≠ 0xFF then (l, .error .invalid)
+  else if c.csLo = l.lo ∧ c.csHi = l.hi ∧ l.lo ≠ l.hi then (l, .ok (some l.bytes))
+  else
+    match readFull f limit c.csLo 4 with
+    | .error e => (l, .error e)
+    | .ok b4 =>
+      let dictSize := u32LE b4
+      if dictSize >>> 30 ≠ 0 then (l, .error .invalid)
+      else if dictSize + 8 > c.csHi - c.csLo then (l, .error .invalid)
       else
-        compressLoop compress refine p q threshold rs (i + 1) candidate i
+        let n := dictSize + 4
+        -- re-using the cached buffer invalidates the cached dictionary
+        let reuse := decide (l.cap ≥ n)
+        let l1 : Loader := if reuse then { l with lo := 0, hi := 0 } else l
+        match readFull f limit (c.csLo + 4) n with
+        | .error e => (l1, .error e)
+        | .ok buffer =>
+          let dict := buffer.take dictSize
+          let checksum := buffer.drop dictSize
+          if u32LE checksum ≠ crc32 dict then (l1, .error .invalid)
+          else
+            ({ lo := c.csLo, hi := c.csHi, bytes := dict, cap := if reuse then l.cap else n },
+              .ok (some dict))
 
-/-- `Saver.Compress(p, q, resourcesData, codec, compress, refineResourceData)`: the compressed bytes and
-`secondaryResource` (`-1` = `rac.NoResourceUsed`); `tertiaryResource` is always `NoResourceUsed` and the codec
-is passed through. -/
-def saverCompress (compress : Bytes → Bytes → Bytes → Except DErr Bytes) (refine : Bytes → Bytes)
-    (p q : Bytes) (resourcesData : List Bytes) : Except DErr (Bytes × Int) :=
-  match compress p q [] with
-  | .error e => .error e
-  | .ok baseline =>
-    if resourcesData.length == 0 || baseline.length < 256 then .ok (baseline, -1) else
-    compressLoop compress refine p q ((baseline.length / 64) * 63) resourcesData 0 baseline (-1)
+/-- what a loader without history answers -/
+def loadFresh (f : CFile) (limit : Nat) (c : CChunk) : Except DErr (Option (List UInt8)) :=
+  (Loader.load f limit {} c).2
 
 end WuffsVerif.Rac.Dict
